@@ -95,6 +95,10 @@ Record state := mk_state {
   deft : list (Z * (Z * Z))            (* DEFINT/DEFSNG/DEFDBL/DEFSTR ranges (lo, (hi, type)), latest first *)
 }.
 
+(* DataSegment.complete_name: a name without a sigil (type code 0) takes the current default type of its letter *)
+Definition resolve (st : state) (n : Z) : Z :=
+  if n mod 10 =? 0 then n + deftype_of (n / 10) (deft st) else n.
+
 Definition top (st : state) : Z := totmem st - stksz st - 2.          (* stack_start() *)
 Definition free (c : cfg) (st : state) : Z := cur st - var_start c - scur st - acur st.   (* _get_free() *)
 
